@@ -62,7 +62,7 @@ BOXES = [2000.0, 500.0, 1000.0, 1185.0, 7.5, 296.0, 123.456, 1.0]
 VELZ = [1.0, 31234.5, 45000.0, 1234.5678, 200000.0, 0.37]
 PPDS = [6912.0, 6912, 1728.0, 2304, 576.0, 64, 6300.0000001, 32767.0]
 NONE_NAMES = ['packedpid_A', 'packedpid_B', 'pid_A']
-OPT_IN_NONE_NAMES = {'rvint_A': 'rvint', 'rvint_B': 'rvint', 'pack9_A': 'pack9'}  # never generated; accepted in hand-written descriptors
+OPT_IN_NONE_NAMES = {'rvint_A': 'rvint', 'rvint_B': 'rvint', 'pack9_A': 'pack9'}  # cleaned_rvpid-style names; generated since the read_asdf dispatch fix
 
 _stats = {'requests_checked': 0, 'reads': 0, 'columns_compared_with_reference': 0, 'columns_compared_bitwise': 0, 'error_cases_checked': 0, 'fixture_files_written': 0}
 
@@ -125,8 +125,8 @@ def _desc(draw):
     variant = draw(st.sampled_from(['plain'] * 7 + ['ambiguous', 'ambiguous', 'none']))
     d = dict(kind=kind, variant=variant)
     if variant == 'none':
-        kind = d['kind'] = draw(st.sampled_from(['packedpid', 'pid']))
-        d['rename'] = draw(st.sampled_from(NONE_NAMES))
+        d['rename'] = draw(st.sampled_from(NONE_NAMES + sorted(OPT_IN_NONE_NAMES)))
+        kind = d['kind'] = OPT_IN_NONE_NAMES.get(d['rename']) or draw(st.sampled_from(['packedpid', 'pid']))
     d['n'] = draw(st.one_of(st.sampled_from([0, 1, 2]), st.integers(0, 50), st.integers(3, 50)))
     d['p9dtype'] = draw(st.sampled_from(['u1', 'i1']))
     d['p9'] = draw(_p9()) if kind == 'pack9' else None
